@@ -15,7 +15,8 @@ BuiltIn == PSAlgs \cup ESAlgs \cup EdAlgs
 HashOf(alg) == CASE alg \in {0 - 7, 0 - 37} -> "sha256" [] alg \in {0 - 35, 0 - 38} -> "sha384" [] alg \in {0 - 36, 0 - 39} -> "sha512" [] OTHER -> "none"
 
 \* key kinds offered to the factories
-RsaBits(kk) == CASE kk \in {"rsa1024", "rsa1024-opaque"} -> 1024 [] kk \in {"rsa2047", "rsa2047-opaque"} -> 2047 [] kk \in {"rsa2048", "rsa2048-opaque"} -> 2048 [] kk = "rsa3072" -> 3072 [] OTHER -> 0
+RsaBits(kk) == CASE kk = "rsa2048e3" -> 2048           \* public exponent 3: small, but the property speaks of the size only
+                 [] kk \in {"rsa1024", "rsa1024-opaque"} -> 1024 [] kk \in {"rsa2047", "rsa2047-opaque"} -> 2047 [] kk \in {"rsa2048", "rsa2048-opaque"} -> 2048 [] kk = "rsa3072" -> 3072 [] OTHER -> 0
 IsRsa(kk) == RsaBits(kk) > 0
 IsEcdsaSignerKey(kk) == kk \in {"p224", "p256", "p384", "p521", "p256-opaque"}
 \* public keys: a valid point on a curve that crypto/ecdh supports (P-224 is not supported there)
